@@ -103,6 +103,8 @@ def classes_of(U, xletters, sel, syntax):
             full = build.udim(U, l)["items"]
             if s["items"] != [i for i in full if i in s["items"]]:
                 cl.append("reordered-subset")
+                if len(s["items"]) >= 16:
+                    cl.append("reordered-subset>=16-items")
                 break
     if gen.has_equal_lengths(U, xletters):
         cl.append("equal-lengths")
@@ -150,7 +152,7 @@ def run_write(desc):
             return float(rhs["v"])
         code = 0
         for l in rl:
-            code += (ritems[l].index(lab[l]) + 1) * 10 ** uorder.index(orig[l])
+            code += (ritems[l].index(lab[l]) + 1) * build.code_base(U) ** uorder.index(orig[l])
         return float(-(code * 3 + 1))
 
     if rhs["kind"] == "number":
@@ -201,6 +203,11 @@ def selectors(draw, U, xletters, allow_list, force_nonempty=False):
                 n = draw(st.integers(3, len(items)))
                 a = draw(st.integers(0, len(items) - n))
                 sub = list(draw(st.permutations(items[a : a + n])))
+            elif len(items) >= 8 and draw(st.booleans()):
+                # most of a long dimension, newest first or in an arbitrary order
+                n = draw(st.integers(len(items) // 2, len(items)))
+                a = draw(st.integers(0, len(items) - n))
+                sub = list(reversed(items[a : a + n])) if draw(st.booleans()) else list(draw(st.permutations(items[a : a + n])))
             else:
                 sub = draw(st.lists(st.sampled_from(items), min_size=1, max_size=len(items), unique=True))
             sel[l] = {"kind": k, "items": sub}
@@ -213,7 +220,7 @@ def selectors(draw, U, xletters, allow_list, force_nonempty=False):
 
 @st.composite
 def index_cases(draw, rw, max_dims=4, max_len=3):
-    U = draw(gen.universes(min_dims=draw(st.sampled_from([1, 2, 3, 3])), max_dims=max_dims, max_len=max_len, min_len=1))
+    U = draw(gen.universes(min_dims=draw(st.sampled_from([1, 2, 3, 3])), max_dims=max_dims, max_len=max_len, min_len=1, long_dim=5))
     x = draw(gen.arrays(U, modes=("coded",), min_dims=1, allow_int=(rw == "read")))
     sel = draw(selectors(U, x["letters"], allow_list=(rw == "write")))
     kinds = {s["kind"] for s in sel.values()}
@@ -299,7 +306,7 @@ class Kinds(Facet):
 @st.composite
 def sequence_cases(draw):
     """Several similar keys applied one after the other to the SAME array object (reads and writes)."""
-    U = draw(gen.universes(min_dims=2, max_dims=4, max_len=6, min_len=1))
+    U = draw(gen.universes(min_dims=2, max_dims=4, max_len=6, min_len=1, long_dim=6))
     x = draw(gen.arrays(U, modes=("coded",), min_dims=2))
     steps = []
     sel = draw(selectors(U, x["letters"], allow_list=True))
@@ -367,7 +374,7 @@ def run_sequence(desc):
                     return float(rhs["v"]) - si
                 code = 0
                 for l in rl:
-                    code += (ritems[l].index(lab[l]) + 1) * 10 ** uorder.index(orig[l])
+                    code += (ritems[l].index(lab[l]) + 1) * build.code_base(U) ** uorder.index(orig[l])
                 return float(-(code * 3 + 1 + si))
 
             if rhs["kind"] == "number":
